@@ -13,7 +13,7 @@ touches=no
 for f in $files; do case "$f" in src/dev_cli/*|tests/*) touches=yes;; esac; done
 stub=/verif/replay_support
 run_demo() { # $1 = tree root
-  (cd "$d" && PYTHONPATH="$stub:$1/packages/llama-index-workflows/src:$1/packages/llama-agents-server/src:$1/packages/llama-agents-core/src:$1/packages/llama-agents-client/src" timeout 300 /venv/bin/python demo.py >/tmp/seedchk_demo.out 2>&1; echo $?)
+  (cd "$d" && PYTHONPATH="$stub:$1/packages/llama-index-workflows/src:$1/packages/llama-agents-server/src:$1/packages/llama-agents-core/src:$1/packages/llama-agents-client/src" SEEDED_TREE="$1" timeout 600 /venv/bin/python demo.py >/tmp/seedchk_demo.out 2>&1; echo $?)
 }
 rc_clean=$(run_demo /repo)
 rc_mut=$(run_demo "$scratch")
